@@ -71,8 +71,16 @@ def around (v : Version) : List Version :=
 def VSet.endpoints (s : VSet) : List Version :=
   s.flatMap (fun i => (i.lower.toList ++ i.upper.toList).map (·.v))
 
+/-- at most about `cap` of the endpoints: the first and last twenty and an even stride in between
+(operands with thousands of alternatives are judged on a sample of their bounds) -/
+def capEndpoints (cap : Nat) (eps : List Version) : List Version :=
+  if eps.length ≤ cap then eps else
+    let stride := eps.length / cap + 1
+    let idx := (List.range eps.length).filter (fun i => i < 20 || i + 20 ≥ eps.length || i % stride == 0)
+    idx.filterMap (fun i => eps[i]?)
+
 /-- the grid on which set identities are evaluated pointwise -/
 def grid (sets : List VSet) : List Version :=
-  [⟨0, 0, 0, [.num 0], []⟩, ⟨0, 0, 0, [], []⟩] ++ (sets.flatMap VSet.endpoints).flatMap around
+  [⟨0, 0, 0, [.num 0], []⟩, ⟨0, 0, 0, [], []⟩] ++ (capEndpoints 400 (sets.flatMap VSet.endpoints)).flatMap around
 
 end Semver.Spec
